@@ -19,6 +19,9 @@ NAN32 = 0x7FC00000
 # OpenPose output format (independent of the repository tables): JSON field -> number of keypoints, in pose order
 LAYOUT_137 = [("pose_keypoints_2d", 25), ("face_keypoints_2d", 70), ("hand_left_keypoints_2d", 21), ("hand_right_keypoints_2d", 21)]
 SUFFIX = "_keypoints.json"
+# BODY_25 keypoint order of the OpenPose output documentation (doc/02_output.md), independent of the repository table
+BODY_25 = ["Nose", "Neck", "RShoulder", "RElbow", "RWrist", "LShoulder", "LElbow", "LWrist", "MidHip", "RHip", "RKnee", "RAnkle", "LHip",
+           "LKnee", "LAnkle", "REye", "LEye", "REar", "LEar", "LBigToe", "LSmallToe", "LHeel", "RBigToe", "RSmallToe", "RHeel"]
 
 
 def b64(x):
@@ -421,6 +424,8 @@ class C19(common.Prop):
             bad = []
             if [("".join(map(chr, c[0])), len(c[1])) for c in c137] != LAYOUT_137:
                 bad.append("137-point components are not the OpenPose fields with 25/70/21/21 points")
+            if c137 and ["".join(map(chr, p)) for p in c137[0][1]] != BODY_25:
+                bad.append("pose_keypoints_2d point names are not the BODY_25 order of the OpenPose output format")
             if [len(c[1]) for c in c135] != [135]:
                 bad.append("135-point table does not have one component of 135 points")
             for c in c137 + c135:
